@@ -546,6 +546,8 @@ def run(ctx):
     from .C13 import r5 as bool_routes
     arith_routes(ctx, fs, rid='C16.R8')
     bool_routes(ctx, fs, rid='C16.R9')
+    # the arithmetic an expression is evaluated with (core::add/sub/mult/div use the compound operators of lin): the rule pack of C15
+    ctx.include('C15')
 
 
 
